@@ -21,9 +21,6 @@ def FBigM.negOne : FBigM := ⟨⟨-1, 0⟩, 0⟩
 /-- `Repr::smaller_than_one`: `exponent + digits_ub < -1` (no false positives) -/
 def smallerThanOne (dub : Int → Nat) (r : FRepr) : Bool := decide (r.exp + (dub r.signif : Int) < -1)
 
-/-- `shr_digits::<B>(value, exp)`: magnitude shift, i.e. truncating division by `B^exp` -/
-def shrDigits (B : Nat) (v : Int) (k : Nat) : Int := Int.tdiv v ((B ^ k : Nat) : Int)
-
 /-- `FBig::trunc` -/
 def fTrunc (B : Nat) (dub : Int → Nat) (x : FBigM) : FBigM :=
   if x.repr.exp ≥ 0 then x
@@ -88,7 +85,7 @@ def fRound (B : Nat) (c : Coarse) (dub : Int → Nat) (x : FBigM) : FBigM :=
 
 /-- `FBig::to_int` (rounding mode of the type) -/
 def fToInt (B : Nat) (m : Mode) (c : Coarse) (dub : Int → Nat) (x : FBigM) : Rounded Int :=
-  if x.repr.exp ≥ 0 then (x.repr.signif * ((B ^ x.repr.exp.toNat : Nat) : Int), none)
+  if x.repr.exp ≥ 0 then (shlDigits B x.repr.signif x.repr.exp.toNat, none)
   else
     let s := splitAtPointInternal B dub x
     let adj := roundFract B m c s.1 s.2.1 s.2.2
@@ -96,7 +93,7 @@ def fToInt (B : Nat) (m : Mode) (c : Coarse) (dub : Int → Nat) (x : FBigM) : R
 
 /-- `Repr::to_int` (always toward zero) -/
 def reprToInt (B : Nat) (dub : Int → Nat) (r : FRepr) : Rounded Int :=
-  if r.exp ≥ 0 then (r.signif * ((B ^ r.exp.toNat : Nat) : Int), none)
+  if r.exp ≥ 0 then (shlDigits B r.signif r.exp.toNat, none)
   else if smallerThanOne dub r then (0, some .NoOp)
   else (shrDigits B r.signif (-r.exp).toNat, some .NoOp)
 
